@@ -5,6 +5,7 @@ pub mod frames;
 pub mod huffman;
 pub mod huffman_table;
 pub mod qpack;
+pub mod qpack_dyn;
 pub mod settings;
 pub mod varint;
 
@@ -21,6 +22,7 @@ pub fn selftest() -> i32 {
     check("varint", varint::selftest());
     check("huffman", huffman::selftest());
     check("qpack", qpack::selftest());
+    check("qpack_dyn", qpack_dyn::selftest());
     check("frames", frames::selftest());
     check("fields", fields::selftest());
     bad
